@@ -1089,6 +1089,181 @@ def run_c07(ctx):
                       lambda d: '%s at precision %s: %s' % (d.get('api'), d.get('precision'), d.get('kind')))
 
 
+# ------------------------------------------------------------------ C04
+def run_c04(ctx):
+    n = _tier(ctx, 1500, 40000)
+    results, meta, summary = _stream(ctx, 'c04', n, 'none', _tier(ctx, 600, 5400))
+    _merge_dist(ctx, summary)
+    ent = lambda m: {'subject': m['subject'], 'clip': m['clip'], 'ct': m['ct'], 'fr': m['fr']}
+    viol = []
+    for d in summary.get('direct_failures') or []:
+        e = ent(d)
+        viol.append({'key': fw.input_key(e), 'kind': d.get('kind'), 'text': '%s (clip type %d, fill rule %d, %s): %s %s' % (d.get('api'), d['ct'], d['fr'], fw.input_key(e), d.get('kind'), d.get('panic', '')),
+                     'detail': {'corpus_entry': e, 'flat': d.get('flat'), 'nodes': d.get('nodes')}})
+    seen = set()
+    for cid, res in results.items():
+        m = meta[cid]
+        ctx['evaluations'] += 1
+        entry = ent(m)
+        key = fw.input_key(entry)
+        if 'what' not in m:
+            # per-tree record: IsHole <=> negative exact area
+            seen.add(key)
+            if len(ctx['samples']) < 2 and len(m['nodes'] or []) >= 3:
+                ctx['samples'].append({'input': entry, 'nodes': m['nodes'][:6]})
+            for nd in m['nodes'] or []:
+                a2 = shoelace2([nd['poly']])
+                if (a2 < 0) != nd['is_hole']:
+                    viol.append({'key': 'sub-band-polygon-misparented' if abs(a2) <= 25 else key, 'kind': 'hole-orientation', 'text': 'node %s reports IsHole()=%s but its exact doubled area is %d' % (nd['poly'][:4], nd['is_hole'], a2),
+                                 'detail': {'corpus_entry': entry, 'nodes': m['nodes']}})
+                    break
+            continue
+        if res.startswith('OK'):
+            continue
+        A, B = [m['node']], [m['other']]
+        if m['what'] == 'parent':
+            pred, txt = (lambda w: w[0] == 0 or w[1] != 0), 'a node\'s polygon is not inside its parent\'s'
+        else:
+            pred, txt = (lambda w: not (w[0] != 0 and w[1] != 0)), 'two sibling polygons overlap'
+        conf = fw.confirm_region([A, B], geom.closed_edges(A) + geom.closed_edges(B), 4, pred, fw.parse_fail(res))
+        if not conf:
+            r2 = fw.recheck_deeper(ctx['root'], ctx['outdir'], [cid]).get(cid, '')
+            if r2.startswith('OK'):
+                continue
+        v = {'key': key, 'kind': 'nesting-' + m['what'], 'detail': {'corpus_entry': entry, 'node': m['node'], 'other': m['other'], 'nodes': m['nodes'], 'checker': res, 'confirmed': conf}}
+        if conf:
+            v['text'] = '%s at point (%s, %s) (windings %s): node %s vs %s' % (txt, conf['point'][0], conf['point'][1], conf['windings'], m['node'][:4], m['other'][:4])
+        else:
+            v['text'] = 'nesting certificate rejected (%s)' % res[:80]
+            v['no_input'] = True
+        viol.append(v)
+    ctx['nontrivial'] += len(seen)
+    return viol
+
+
+# ------------------------------------------------------------------ C05 / C10 (offsetting)
+def _offset_common(ctx, cmd, pid, n, ent, classify):
+    results, meta, summary = _stream(ctx, cmd, n, 'none', _tier(ctx, 900, 5400))
+    _merge_dist(ctx, summary)
+    viol = []
+    for d in summary.get('direct_failures') or []:
+        e = ent(d)
+        viol.append({'key': fw.input_key(e), 'kind': d.get('kind'), 'text': 'InflatePaths64 %s: %s %s' % (json.dumps(e)[:300], d.get('kind'), d.get('panic', '')), 'detail': {'corpus_entry': e, 'out': d.get('out')}})
+    seen = set()
+    # first pass results; unconfirmed rejections get a deeper cover search (wide bands need fine subdivision)
+    pending = []
+    for cid, res in results.items():
+        m = meta[cid]
+        kind = cid[-1]
+        if kind.isdigit():
+            ctx['evaluations'] += 1
+            seen.add(fw.input_key(ent(m)))
+            if len(ctx['samples']) < 3 and m.get('out'):
+                ctx['samples'].append(dict(ent(m), out=m['out'][:2]))
+            continue
+        ctx['evaluations'] += 1
+        if kind == 'e':
+            # over-shrinking premise: accepted means every interior point is within |delta| - tol of the boundary
+            if res.startswith('OK') and m['out']:
+                e = ent(m)
+                viol.append({'key': fw.input_key(e), 'kind': 'over-shrink', 'text': 'every interior point is within |delta|-tol of the boundary but the result is not empty: %s' % str(m['out'])[:200], 'detail': {'corpus_entry': e, 'out': m['out']}})
+            continue
+        if not res.startswith('OK'):
+            pending.append(cid)
+    deeper = fw.recheck_deeper(ctx['root'], ctx['outdir'], pending, fuel=9, timeout=_tier(ctx, 900, 3600)) if pending else {}
+    for cid in pending:
+        m = meta[cid]
+        kind = cid[-1]
+        res2 = deeper.get(cid, '')
+        if res2.startswith('OK'):
+            continue
+        res = res2 or results[cid]
+        e = ent(m)
+        I = m.get('in') if m.get('in') is not None else [m['line']]
+        R = m['out']
+        is_open = m.get('in') is None
+        delta = m['delta']
+        if kind == 'a':
+            sets, band, r2 = ([I, R] if delta > 0 else [R, I]), geom.closed_edges(I), 4
+            pred, txt = (lambda w: w[0] == 0 or w[1] != 0), ('the input region is not contained in the grown result' if delta > 0 else 'the shrunk result is not contained in the input region')
+        elif kind in 'bp':
+            A = m.get('strips_paths') or m.get('inner')
+            sets, band, r2 = [A, R], geom.closed_edges(R), 4
+            if delta > 0 or is_open:
+                pred, txt = (lambda w: w[0] == 0 or w[1] != 0), 'a point within |delta| of an input edge along its normal (or of an end point / vertex) is missing from the result'
+            else:
+                pred, txt = (lambda w: not (w[0] != 0 and w[1] != 0)), 'a point within |delta| of an input edge along its inward normal survives the shrinking'
+        elif kind == 'c':
+            sets, band, r2 = [R], geom.closed_edges(R), 4
+            s = m.get('sign', 1)
+            pred, txt = (lambda w: w[0] in (0, s)), 'the result is not a canonical polygon set'
+        else:  # 'f'
+            r2 = geom.parse_q(m['r_far2'])
+            if is_open:
+                closed_loop = m.get('et') == 1
+                pts = [p for i, p in enumerate(I[0]) if i == 0 or p != I[0][i - 1]]
+                band = geom.closed_edges([pts]) if closed_loop else geom.open_edges([pts])
+                sets, pred, txt = [R], (lambda w: w[0] == 0), 'the result reaches farther than k*delta + tol from the polyline'
+            else:
+                band = geom.closed_edges(I)
+                sets = [R, I] if delta > 0 else [I, R]
+                pred = lambda w: w[0] == 0 or w[1] != 0
+                txt = 'the result reaches farther than k*delta + tol from the input region' if delta > 0 else 'interior points farther than k|delta| + tol from the boundary are missing'
+        conf = fw.confirm_region(sets, band, r2, pred, fw.parse_fail(res))
+        key = fw.input_key(e)
+        try:
+            kc = classify(m, conf, kind, res)
+        except TypeError:
+            kc = classify(m, conf, kind)
+        v = {'key': kc or key, 'kind': 'offset-' + kind, 'detail': {'corpus_entry': e, 'out': R, 'checker': res, 'confirmed': conf}}
+        if conf:
+            v['text'] = '%s: %s at point (%s, %s), windings %s (delta %.3f, join %s%s)' % (pid, txt, conf['point'][0], conf['point'][1], conf['windings'], delta, m.get('jt'), (', end %s' % m.get('et')) if is_open else '')
+        else:
+            v['text'] = 'offset certificate (%s) rejected (%s) for input key %s' % (kind, res[:80], key)
+            v['no_input'] = True
+        viol.append(v)
+    ctx['nontrivial'] += len(seen)
+    uniq, out_v = set(), []
+    for v in viol:
+        k = (v['key'], v['kind']) if v['key'] in ('open-end-caps-missing', 'joined-single-point-vanishes') else (v['key'], v['kind'], v['text'][:40])
+        if k in uniq:
+            continue
+        uniq.add(k)
+        out_v.append(v)
+    return out_v
+
+
+def run_c05(ctx):
+    ent = lambda m: {'in': m['in'], 'delta': m['delta'], 'jt': m['jt'], 'miter': m.get('miter'), 'arc_tolerance': m.get('arc_tolerance')}
+    return _offset_common(ctx, 'c05', 'C05', _tier(ctx, 700, 20000), ent, lambda m, conf, kind: LOBE_KEY if lobe_known(m, conf) else None)
+
+
+def run_c10(ctx):
+    ent = lambda m: {'line': m['line'], 'delta': m['delta'], 'jt': m['jt'], 'et': m['et'], 'miter': m.get('miter')}
+
+    def classify(m, conf, kind, res=''):
+        line = [p for i, p in enumerate(m['line']) if i == 0 or p != m['line'][i - 1]]
+        et = m['et']
+        if len(line) == 1 and et == 1:
+            return 'joined-single-point-vanishes'
+        capless = et in (2, 3, 4) or (et == 1 and len(line) <= 2)   # a 2-point Joined path is stroked as Square/Round ended
+        if capless and kind in ('b', 'p'):
+            if len(line) <= 2:
+                return 'open-end-caps-missing'
+            qq = None
+            if conf:
+                qq = (geom.parse_q(conf['point'][0]), geom.parse_q(conf['point'][1]))
+            else:
+                qq = fw.parse_fail(res)
+            if qq is not None:
+                lim = F(m['k'] * m['delta'] + m['tol']) ** 2
+                ends = [(tuple(line[0]), tuple(line[1])), (tuple(line[-2]), tuple(line[-1]))]
+                if geom.min_dist2(ends, qq) <= lim:
+                    return 'open-end-caps-missing'
+        return None
+    return _offset_common(ctx, 'c10', 'C10', _tier(ctx, 600, 20000), ent, classify)
+
+
 REGION_TRUST = [
     "the region checker is proved sound for every real point (Cert/RegionSound.v); what ties it to the code is that the implementation's actual outputs are fed to the extracted checker on every run (generated + corpus inputs): a defect no generated input triggers stays invisible",
     fw.REAL_AXIOMS,
@@ -1190,6 +1365,27 @@ PROPS = {
                   'differential run: every float entry point is also executed and compared bit for bit with its 64-bit counterpart applied to ScalePathsDToPaths64(input) and unscaled by ScalePaths64ToPathsD, for all 17 precisions and 4 illegal ones'],
         'rule': 'float inputs on a lattice of quanta with sub-quantum jitter (exact ties at .5, .49999, .50001) x 21 precisions x 11 entry points (boolean ops, wrappers, engine object, PolyTree, inflate, Minkowski sum/diff, rectangle clipping of polygons and lines, trim); evaluations = entry-point calls; non-trivial = inputs',
         'assumes': [],
+    },
+    'C04': {
+        'run': run_c04, 'level': 'proof',
+        'trust': REGION_TRUST + ['Model/PolyTree.v: node API (Level/IsHole) and the abstract nesting lemma (polygons containing a point form a chain, so a parent is the innermost polygon around its child)',
+                                 'same-polygons (as cyclic vertex sequences, each exactly once), Level = parent level + 1, IsHole <=> even level, IsHole <=> negative exact area are decided directly on every tree'],
+        'rule': 'nested rings to depth 6 (islands in holes in islands, second islands touching their hole), nested-vs-nested, and generic random pairs x clip types x fill rules through BooleanOpPolyTree64 and Clipper64.ExecutePolyTree64 (the float tree is tied to the 64-bit one by C07); pairwise parent/sibling certificates for trees of <= 14 nodes; non-trivial = depth >= 2',
+        'assumes': [],
+    },
+    'C05': {
+        'run': run_c05, 'level': 'proof', 'trust': [t.replace('the Vatti sweep itself (clipper_base.go, engine.go)', 'the offsetter\'s per-vertex join construction (offset.go: float trigonometry, not modelled) and the final union') for t in REGION_TRUST] + [
+                  'the strips and discs handed to the checker (points within |delta|-1 of an edge along its normal, discs of radius |delta|-tol about vertices for round joins) are built by the harness in floating point and rounded to the lattice; their containment in the ideal |delta|-tol neighbourhood is not re-proved',
+                  'squared radii (k|delta| + tol)^2 are passed as rational upper bounds chosen by the harness; the checker uses them exactly'],
+        'rule': 'simple polygon sets (1-2 star-shaped islands of 3-10 vertices, holes inside islands with >= 6 vertices, either global orientation) x deltas of both signs from 0.3 to 2.5 diameters x 4 join types x miter limits 1..5 x arc tolerances 0..3, through InflatePaths64 and ClipperOffset with one group per island; per case up to 5 certificates (input kept / result inside input, normal strips and vertex discs, far bound, canonical form, over-shrink premise); non-trivial = |delta| >= 0.5',
+        'assumes': ['PARTIAL: certified with bands of 2 units around the input edges / the result\'s own edges and the radius k|delta|+tol; the join construction itself is not modelled'],
+    },
+    'C10': {
+        'run': run_c10, 'level': 'proof', 'trust': [t.replace('the Vatti sweep itself (clipper_base.go, engine.go)', 'the offsetter\'s per-vertex join construction (offset.go: float trigonometry, not modelled) and the final union') for t in REGION_TRUST] + [
+                  'the strips and discs handed to the checker (points within |delta|-1 of an edge along its normal, discs of radius |delta|-tol about vertices for round joins) are built by the harness in floating point and rounded to the lattice; their containment in the ideal |delta|-tol neighbourhood is not re-proved',
+                  'squared radii (k|delta| + tol)^2 are passed as rational upper bounds chosen by the harness; the checker uses them exactly'],
+        'rule': 'open polylines of 1-6 points (duplicates, gentle turns) x 4 end types x 4 join types x half-widths 5%-30% of the segment length; per case: canonical form, both normal strips of every segment inside the result, nothing farther than k*delta+tol from the polyline, single points against an inscribed square/disc',
+        'assumes': ['PARTIAL as C05'],
     },
     'C02': {
         'run': run_c02, 'level': 'proof', 'trust': REGION_TRUST,
